@@ -59,13 +59,21 @@ MANIFEST = {
             "value is freed (C17_own_balance); free_single k / free_siblings k on a chain keep exactly the other / the first k "
             "elements in order and release exactly the freed elements' references (C17_own_free_single_exact, "
             "C17_own_free_siblings_exact); a duplicate takes one reference per owned string (C17_own_dup_takes_refs); a stored "
-            "value whose validation fails is neutral (C17_own_temp_neutral); C17_own_dict_is_DictP, C17_own_script_delta_zero. "
+            "value whose validation fails is neutral (C17_own_temp_neutral); an update-style operation (new_path UPDATE, change_term, "
+            "change_meta, any_copy_value) with an equal value changes nothing - its temporary is freed - and with another value "
+            "switches the handle, releasing exactly the old value's references and taking the new one's (C17_own_update_exact); "
+            "the re-resolution of a union value at validation frees the temporary of the recorded member on every path and "
+            "switches the value likewise (C17_own_resolve_exact); both hold in any state satisfying the balance invariant OInv "
+            "for a live handle, values being compared by the list of strings they own, and C17_own_balance covers sequences "
+            "containing them; C17_own_dict_is_DictP, C17_own_script_delta_zero. "
             "Former defects are kept as regression Examples (C17_ht_dup_regression, C17_ht_pct_former_witness: fixed in d69e9c2 / "
-            "be54a69; C17_own_*_refuted: the seeded defect classes as wrong variants of the model operations). Tie (T2): the "
+            "be54a69; C17_own_*_refuted, incl. C17_own_update_same_leaked_refuted and C17_own_resolve_leaked_refuted: the seeded "
+            "defect classes as wrong variants of the model operations). Tie (T2): the "
             "extracted models and the C functions run the same scripts on the public lyht_* / lydict_* API and are compared on "
             "every return value AND the complete internal state (size, used, resize, first_free_rec, every hlists[] entry, every "
             "chain with arena indices, the free list, reference counts); own-delta compares the end-of-case dictionary accounting "
-            "of the fixed API catalogue scripts with the model's prediction, which is 0 for every script by theorem.",
+            "of the fixed API catalogue scripts with the model's prediction (each command projected by its name and flags onto "
+            "store / temporary / dup / update / re-resolve of the previous value), which is 0 for every script by theorem.",
     "note": "NOT proved: heap behaviour of the rest of the library; which strings / blocks a given libyang call owns is not modelled "
             "anywhere. It is only SEARCHED by the Ownership oracle (impl/t_own.c, ASan + LSan also in the quick tier): random and "
             "fixed sequences of data-tree API calls, failing ones included, over two contexts with fixed modules; after every call: "
